@@ -5,6 +5,7 @@
   cli.py replay <replay.json>
   cli.py minimise <replay.json> <budget_s>
   cli.py selftest determinism [n]
+  cli.py case <Cxx> <index> [--tier t] [--save f]   (one case, from VERIF_SEED)
   cli.py conformance [n]       (informational: stubs vs real processes)
   cli.py worker ...            (internal)
 """
@@ -59,6 +60,30 @@ def main(argv):
             spec = json.load(f)
         print('CHAIN ' + json.dumps([c18.chain_of(spec)[0], None]))
         return 0
+    if cmd == 'case':
+        # one case of a check, regenerated from (VERIF_SEED, property, index):
+        #   cli.py case <Cxx> <index> [--tier t] [--save file.json]
+        _reexec_with_fixed_hashseed()
+        import random
+        from dst import batch, registry, workload
+        tier = argv[argv.index('--tier') + 1] if '--tier' in argv else 'quick'
+        workload.TIER = tier
+        prop = registry.get(argv[2])
+        index = int(argv[3])
+        vs = int(os.environ.get('VERIF_SEED', '0'))
+        case = prop.gen(random.Random(batch.case_seed(vs, argv[2], index)), tier)
+        case.update(index=index, verif_seed=vs, wid=0, nworkers=16)
+        v = prop.run(case)
+        if '--save' in argv:
+            with open(argv[argv.index('--save') + 1], 'w') as f:
+                json.dump(case, f)
+        print(json.dumps({
+            'property': argv[2], 'verif_seed': vs, 'index': index,
+            'aborted': v.aborted, 'nontrivial': v.nontrivial,
+            'trace_digests': v.digests, 'sample': v.sample,
+            'violations': [x['sig'] + ': ' + x['msg'] for x in v.violations],
+        }, indent=1, default=str))
+        return 1 if v.violations else 0
     if cmd == 'conformance':
         _reexec_with_fixed_hashseed()
         from dst import conformance
